@@ -1405,6 +1405,7 @@ SPECS["C01"]["theorems"] += [
     "Woodpile.Props.C01P.prefilled_output",
     "Woodpile.Props.C01P.prefilled_output_cells",
     "Woodpile.Props.C01P.prefilled_abs_between_calls",
+    "Woodpile.Props.C01P.prefilled_post_fill",
     "Woodpile.Props.C01P.prefilled_roundtrip",
     "Woodpile.Props.C01P.dec_prefilled_output_cells",
     "Woodpile.Props.C01P.dec_prefilled_output",
@@ -1420,7 +1421,7 @@ SPECS["C01"]["level_text"] += (' Props/C01P (track apileft, audit gap 15): the c
     'proves of every iovec built from OwningIovec::new() by push / push_borrowed / push_copy / register_patch / backfill_or_panic / consume / advance_slices, the script vocabulary '
     'EncWorld.PreOp of the driver ops enc_from2 / dec_from2): prefilled_output_cells / dec_prefilled_output_cells - the abstract cells are the cells the iovec stood for '
     '(the caller\'s placeholders untouched) followed by the bytes of Spec.encode p input (the decoded data). The codec exposes only the read side of its iovec (consumer()), so a '
-    'caller placeholder pending at the hand-over can be filled only after finish / take_iovec: op post_fill. Proof route (Proofs/EncWorldPre, DecWorldPre): the encoder\'s '
+    'caller placeholder pending at the hand-over can be filled only after finish / take_iovec: op post_fill, theorem prefilled_post_fill (the token the caller kept is still a pending backref of the iovec finish hands back, same key and geometry, and backfilling it fills exactly its cells). Proof route (Proofs/EncWorldPre, DecWorldPre): the encoder\'s '
     'placeholder ids are shifted past the caller\'s (applyStep_shift), the real pipe is kept equal to the virtual fresh-start pipe of Proofs/HcobsEnc behind the prefix (Lifted), '
     'and the per-op refinement lemmas are reused as they are. Family codecw: ops enc_from2 / dec_from2 <script> / post_fill, 32 enumerated prefill shapes x encoder/decoder plus '
     'random scripts, direct oracle prefill ++ reference encoding / decoding on the real crates.')
